@@ -422,7 +422,7 @@ def setitem(it, base: VTensor, sl_node, v, fr):
     if len(items) != blk.ndim():
         raise Unmodelled("partial slice assignment")
     shape = blk.shape()
-    offsets, sizes = [], []
+    offsets, sizes, int_axes = [], [], []
     for ax, x in enumerate(items):
         if isinstance(x, VSlice) and x.lo is None and x.hi is None:
             offsets.append(None)
@@ -431,8 +431,26 @@ def setitem(it, base: VTensor, sl_node, v, fr):
             o, sz = _slice_bounds(it, x, shape[ax])
             offsets.append(o)
             sizes.append(sz)
+        elif isinstance(x, VInt):
+            # an integer position of the target: the value has no axis there (re-inserted as a unit axis below)
+            p_ = it.facts.norm(x.p)
+            neg = it.facts.compare(p_, "<", 0)
+            if neg is None:
+                raise Unmodelled("slice assignment at a position of unknown sign")
+            offsets.append(it.facts.norm(shape[ax] + p_) if neg else p_)
+            sizes.append(ONE)
+            int_axes.append(ax)
         else:
             raise Unmodelled("slice assignment with a non-slice index")
+    if any(sz is not None and it.facts.norm(P.of(sz)) == ZERO for sz in sizes):
+        return          # an empty region: nothing is stored
+    if int_axes and isinstance(v, VTensor):
+        d_ = v.dense()
+        for ax in int_axes:
+            d_ = net.insert_axis(d_, ax)
+        v = VTensor(d_, v.dtype)
+    if isinstance(v, VTensor) and not (v.val.blocks if isinstance(v.val, Block) else v.val.terms):
+        v = VFloat(0.0)     # a tensor that is identically zero clears the region
     if isinstance(v, (VInt, VFloat)):
         z = v.p.const_value() if isinstance(v, VInt) else v.x
         if z == 0:
